@@ -4,10 +4,10 @@ p=$(readlink -f "$1"); id=$2; tier=${3:-quick}
 cd /repo || exit 2
 if ! git diff --quiet; then echo "repo dirty"; exit 2; fi
 git apply "$p" || { echo "patch does not apply"; exit 2; }
-cd /verif && ./check $id $tier > /var/tmp/vt/seed-$id.log 2>&1; rc=$?
+cd /verif && ./check $id $tier > /var/tmp/integ/seed-$id.log 2>&1; rc=$?
 git -C /repo checkout -- .
-grep -c "^VIOLATION" /var/tmp/vt/seed-$id.log | sed "s/^/violation lines: /"
-grep "clause=" /var/tmp/vt/seed-$id.log | sort | uniq -c | head -8
-tail -1 /var/tmp/vt/seed-$id.log
+grep -c "^VIOLATION" /var/tmp/integ/seed-$id.log | sed "s/^/violation lines: /"
+grep "clause=" /var/tmp/integ/seed-$id.log | sort | uniq -c | head -8
+tail -1 /var/tmp/integ/seed-$id.log
 echo "exit=$rc"
 git -C /verif checkout -- evidence 2>/dev/null
